@@ -461,7 +461,10 @@ fn sets(rep: &mut Report, seed: u64, scale: u64) {
             // history of single-set operations on `a`
             for step in 0..60 {
                 let k = g.below(universe + 5);
-                match g.below(14) {
+                // which OBJECT stands for each stored value: only `replace(k)` may exchange it (for `k`)
+                let before: BTreeMap<u64, u64> = a.iter().map(|x| (x.k(), x.id)).collect();
+                let opcode = g.below(14);
+                match opcode {
                     0 | 1 => {
                         if a.insert(Key::new(k)) != ra.insert(k) { problems.push(format!("insert {k} @{step}")); }
                     }
@@ -488,9 +491,11 @@ fn sets(rep: &mut Report, seed: u64, scale: u64) {
                         if got != k { problems.push(format!("get_or_insert {k}")); }
                     }
                     7 => {
-                        let got = a.get_or_insert_with(&Q(k), |q| Key::new(q.0)).k();
-                        ra.insert(k);
+                        let mut called = 0;
+                        let got = a.get_or_insert_with(&Q(k), |q| { called += 1; Key::new(q.0) }).k();
+                        let was = !ra.insert(k);
                         if got != k { problems.push(format!("get_or_insert_with {k}")); }
+                        if called != (!was) as u32 { problems.push(format!("get_or_insert_with {k} (present = {was}): closure called {called} times")); }
                     }
                     8 => {
                         if a.contains(&Q(k)) != ra.contains(&k) { problems.push(format!("contains {k}")); }
@@ -544,6 +549,14 @@ fn sets(rep: &mut Report, seed: u64, scale: u64) {
                 }
                 if a.len() != ra.len() || a.is_empty() != ra.is_empty() {
                     problems.push(format!("len {} vs {} @{step}", a.len(), ra.len()));
+                }
+                for x in a.iter() {
+                    if let Some(id0) = before.get(&x.k()) {
+                        if *id0 != x.id && !(opcode == 2 && x.k() == k) {
+                            problems.push(format!("operation {opcode} on {k} exchanged the stored object of value {} (a value that is already present keeps its representative)", x.k()));
+                            break;
+                        }
+                    }
                 }
                 let st = a.verif_state();
                 if let Some((l, _, _, cur)) = st.old {
@@ -712,6 +725,60 @@ fn par(rep: &mut Report, seed: u64, scale: u64) {
                     d2.extend(dups.clone());
                     if d1 != d2 {
                         problems.push(format!("par_extend with duplicate keys differs from extend ({ndup} pairs over {modulus} keys)"));
+                    }
+                    // … and into destinations that are EMPTY but have room (built with capacity, cleared, emptied in place by
+                    // retain — possibly with an emptied old table still allocated), for maps and sets, owned and by reference
+                    for shape in 0..4u8 {
+                        let mk = |shape: u8| -> PM {
+                            let mut d = PM::with_hasher(VBuild { kind: hk, seed: 2 });
+                            match shape {
+                                0 => d.reserve(ndup + 8),
+                                1 => {
+                                    for i in 0..(ndup as u64 + 20) { d.insert(50_000 + i, 0); }
+                                    d.clear();
+                                }
+                                2 => {
+                                    for i in 0..(ndup as u64 + 29) { d.insert(50_000 + i, 0); }
+                                    d.retain(|_, _| false);
+                                }
+                                _ => {
+                                    for i in 0..15u64 { d.insert(50_000 + i, 0); }
+                                    d.reserve(ndup * 2 + 40);
+                                    d.retain(|_, _| false);
+                                }
+                            }
+                            d
+                        };
+                        let (mut x1, mut x2, mut x3, mut x4) = (mk(shape), mk(shape), mk(shape), mk(shape));
+                        pool.install(|| x1.par_extend(dups.clone()));
+                        x2.extend(dups.clone());
+                        pool.install(|| x3.par_extend(dups.par_iter().map(|(k, v)| (k, v))));
+                        x4.extend(dups.iter().map(|(k, v)| (k, v)));
+                        if x1 != x2 || x1.len() != x2.len() || x1.iter().count() != x2.len() || x3 != x4 || x3.iter().count() != x4.len() {
+                            problems.push(format!("par_extend with duplicate keys into an empty destination with room (shape {shape}) differs from extend: {} / {} entries vs {}", x1.len(), x3.len(), x2.len()));
+                        }
+                        let mks = |shape: u8| -> PS {
+                            let mut d = PS::with_hasher(VBuild { kind: hk, seed: 2 });
+                            match shape {
+                                0 => d.reserve(ndup + 8),
+                                1 => {
+                                    for i in 0..(ndup as u64 + 20) { d.insert(50_000 + i); }
+                                    d.clear();
+                                }
+                                _ => {
+                                    for i in 0..(ndup as u64 + 29) { d.insert(50_000 + i); }
+                                    d.retain(|_| false);
+                                }
+                            }
+                            d
+                        };
+                        let (mut s1, mut s2) = (mks(shape), mks(shape));
+                        let ks: Vec<u64> = dups.iter().map(|x| x.0).collect();
+                        pool.install(|| s1.par_extend(ks.clone()));
+                        s2.extend(ks.clone());
+                        if s1 != s2 || s1.iter().count() != s2.len() {
+                            problems.push(format!("set par_extend with repeated elements into an empty destination with room (shape {shape}): {} vs {}", s1.len(), s2.len()));
+                        }
                     }
                     let g1: PM = pool.install(|| dups.clone().into_par_iter().collect());
                     let g2: PM = dups.iter().copied().collect();
@@ -1120,6 +1187,48 @@ fn serde_slice(rep: &mut Report, seed: u64, scale: u64) {
         }));
         if r.is_err() {
             problems.push(format!("serialize/deserialize tokens: {}", LAST_PANIC.with(|p| p.borrow().lines().last().unwrap_or("").to_string())));
+        }
+        // a stream is not a map: keys may repeat in it (definite-length msgpack / CBOR maps, crafted input), whatever
+        // the hint says; deserialising is then a fold of `insert` — the last value of a key wins, once
+        {
+            let mut stream: Vec<(u64, u64)> = m.iter().map(|(k, v)| (*k, *v)).collect();
+            let n0 = stream.len();
+            for i in 0..(n0 / 3 + 2) {
+                let k = if n0 > 0 && g.chance(2, 3) { stream[g.below(n0 as u64) as usize].0 } else { 5000 + (i as u64 % 3) };
+                let at = g.below(stream.len() as u64 + 1) as usize;
+                stream.insert(at, (k, 900 + i as u64));
+            }
+            let mut want: BTreeMap<u64, u64> = BTreeMap::new();
+            for (k, v) in &stream {
+                want.insert(*k, *v);
+            }
+            for hint in [None, Some(stream.len()), Some(want.len()), Some(1), Some(1 << 40)] {
+                let r = catch_unwind(AssertUnwindSafe(|| {
+                    let d: PM = PM::deserialize(mini_de::Map { items: stream.clone(), hint }).unwrap();
+                    let mut got: Vec<(u64, u64)> = d.iter().map(|(k, v)| (*k, *v)).collect();
+                    got.sort_unstable();
+                    let w: Vec<(u64, u64)> = want.iter().map(|(k, v)| (*k, *v)).collect();
+                    assert_eq!(d.len(), want.len(), "len() after deserialising a stream with repeated keys");
+                    assert_eq!(got, w, "a stream with repeated keys must deserialise like a fold of insert");
+                    for (k, v) in &want {
+                        assert_eq!(d.get(k), Some(v), "get after deserialising a stream with repeated keys");
+                    }
+                    let keys: Vec<u64> = stream.iter().map(|x| x.0).collect();
+                    let ds: PS = PS::deserialize(mini_de::Seq { items: keys.clone(), hint }).unwrap();
+                    assert_eq!(ds.len(), want.len(), "set: len() after deserialising a sequence with repeated elements");
+                    assert_eq!(ds.iter().count(), want.len());
+                    let mut dst: PS = PS::with_hasher(VBuild { kind: hk, seed: 9 });
+                    dst.insert(77);
+                    dst.reserve(30);
+                    PS::deserialize_in_place(mini_de::Seq { items: keys, hint }, &mut dst).unwrap();
+                    assert_eq!(dst.len(), want.len(), "set (in place): len() after a sequence with repeated elements");
+                    assert!(want.keys().all(|k| dst.contains(k)) && !dst.contains(&77) || want.contains_key(&77));
+                }));
+                rep.evaluations += 1;
+                if r.is_err() {
+                    problems.push(format!("repeated keys, hint {hint:?}: {}", LAST_PANIC.with(|p| p.borrow().lines().last().unwrap_or("").to_string())));
+                }
+            }
         }
         // own deserializer: lying and honest size hints, arbitrary destination for deserialize_in_place
         let items: Vec<(u64, u64)> = m.iter().map(|(k, v)| (*k, *v)).collect();
